@@ -3,6 +3,8 @@ package main
 import (
 	"fmt"
 	"go/ast"
+	"go/printer"
+	"go/token"
 	"io/fs"
 	"path/filepath"
 	"sort"
@@ -244,8 +246,12 @@ func c06CallOn(n ast.Node, recvSuffix string, names ...string) bool {
 
 func (e *ext) c06CommitSites() {
 	d := "pkg/scheduler/plugins/nodenumaresource"
-	upd := e.c06Enclosing(d, func(n ast.Node) bool { return c06CallOn(n, "esourceManager", "Update") || c06CallOn(n, "manager", "Update") })
-	rel := e.c06Enclosing(d, func(n ast.Node) bool { return c06CallOn(n, "esourceManager", "Release") || c06CallOn(n, "manager", "Release") })
+	upd := e.c06Enclosing(d, func(n ast.Node) bool {
+		return c06CallOn(n, "esourceManager", "Update") || c06CallOn(n, "manager", "Update")
+	})
+	rel := e.c06Enclosing(d, func(n ast.Node) bool {
+		return c06CallOn(n, "esourceManager", "Release") || c06CallOn(n, "manager", "Release")
+	})
 	asg := e.c06Enclosing(d, func(n ast.Node) bool {
 		a, ok := n.(*ast.AssignStmt)
 		if !ok {
@@ -329,10 +335,276 @@ func (e *ext) c06CommitSites() {
 	fmt.Fprintf(&e.out, "/-- callers of Plugin.GetResourceManager outside the package (dir:func) -/\ndef resourceManagerExternalUsers : List String := %s\n", c06Strs(external))
 }
 
+// ---- get-or-create of the per-node ledger object (round 3): critical-section structure of
+// resourceManager.getOrCreateNodeAllocation with respect to the MANAGER lock (<recv>.lock) and the map
+// <recv>.nodeAllocations.  Sections in source order: (lock kind 0 none / 1 RLock / 2 Lock, [accesses]) with access
+// 0 = look-up nodeAllocations[..], 1 = store nodeAllocations[..] = v (delete(...) is reported as 2).
+// `defer <recv>.lock.Unlock()` holds to the end of the function.  Sections without map access are dropped.
+type c06GocWalk struct {
+	recv  string
+	kind  int
+	secs  []c06Sec // locked is unused; kinds kept in parallel
+	kinds []int
+}
+
+func (w *c06GocWalk) emit(code int) {
+	if len(w.kinds) == 0 || w.kinds[len(w.kinds)-1] != w.kind || w.secs[len(w.secs)-1].locked {
+		w.kinds = append(w.kinds, w.kind)
+		w.secs = append(w.secs, c06Sec{})
+	}
+	w.secs[len(w.secs)-1].acts = append(w.secs[len(w.secs)-1].acts, code)
+}
+
+func (w *c06GocWalk) isMap(x ast.Expr) bool {
+	ix, ok := x.(*ast.IndexExpr)
+	return ok && c06Expr(ix.X) == w.recv+".nodeAllocations"
+}
+
+func (w *c06GocWalk) reads(n ast.Node) {
+	if n == nil {
+		return
+	}
+	ast.Inspect(n, func(m ast.Node) bool {
+		if _, isLit := m.(*ast.FuncLit); isLit {
+			return false
+		}
+		if c, ok := m.(*ast.CallExpr); ok {
+			if id, ok := c.Fun.(*ast.Ident); ok && id.Name == "delete" && len(c.Args) > 0 && c06Expr(c.Args[0]) == w.recv+".nodeAllocations" {
+				w.emit(2)
+			}
+		}
+		if x, ok := m.(ast.Expr); ok && w.isMap(x) {
+			w.emit(0)
+		}
+		return true
+	})
+}
+
+func (w *c06GocWalk) closeSection() {
+	if len(w.secs) > 0 {
+		w.secs[len(w.secs)-1].locked = true // closed: the next access starts a new section
+	}
+}
+
+func (w *c06GocWalk) stmts(list []ast.Stmt) {
+	for _, s := range list {
+		switch v := s.(type) {
+		case *ast.ExprStmt:
+			if recv, name, ok := c06Sel(v.X); ok && recv == w.recv+".lock" {
+				switch name {
+				case "Lock":
+					w.kind = 2
+					w.closeSection()
+					continue
+				case "RLock":
+					w.kind = 1
+					w.closeSection()
+					continue
+				case "Unlock", "RUnlock":
+					w.kind = 0
+					w.closeSection()
+					continue
+				}
+			}
+			w.reads(v)
+		case *ast.DeferStmt:
+			if recv, name, ok := c06Sel(v.Call); ok && recv == w.recv+".lock" && (name == "Unlock" || name == "RUnlock") {
+				continue
+			}
+			w.reads(v.Call)
+		case *ast.AssignStmt:
+			for _, r := range v.Rhs {
+				w.reads(r)
+			}
+			for _, l := range v.Lhs {
+				if w.isMap(l) {
+					w.emit(1)
+				} else {
+					w.reads(l)
+				}
+			}
+		case *ast.BlockStmt:
+			w.stmts(v.List)
+		case *ast.IfStmt:
+			if v.Init != nil {
+				w.stmts([]ast.Stmt{v.Init})
+			}
+			w.reads(v.Cond)
+			w.stmts(v.Body.List)
+			if v.Else != nil {
+				w.stmts([]ast.Stmt{v.Else})
+			}
+		case *ast.ForStmt:
+			w.stmts(v.Body.List)
+		case *ast.RangeStmt:
+			w.reads(v.X)
+			w.stmts(v.Body.List)
+		default:
+			w.reads(s)
+		}
+	}
+}
+
+func (e *ext) c06GetOrCreate(dir string) {
+	fd := e.funcDecl(dir, "resourceManager", "getOrCreateNodeAllocation")
+	w := &c06GocWalk{}
+	if fd == nil || fd.Body == nil || fd.Recv == nil || len(fd.Recv.List) == 0 || len(fd.Recv.List[0].Names) == 0 {
+		e.fail("%s: func (resourceManager) getOrCreateNodeAllocation not found", dir)
+	} else {
+		w.recv = fd.Recv.List[0].Names[0].Name
+		w.stmts(fd.Body.List)
+	}
+	var parts []string
+	for i, s := range w.secs {
+		parts = append(parts, fmt.Sprintf("(%d, %s)", w.kinds[i], c06Ints(s.acts)))
+	}
+	fmt.Fprintf(&e.out, "/-- resourceManager.getOrCreateNodeAllocation: sections of the manager lock (0 none / 1 RLock / 2 Lock, accesses to nodeAllocations: 0 look-up, 1 store, 2 delete) -/\ndef rmGetOrCreate : List (Nat × List Nat) := [%s]\n", strings.Join(parts, ", "))
+	// who else writes the map
+	writers := e.c06Enclosing(dir, func(n ast.Node) bool {
+		switch v := n.(type) {
+		case *ast.AssignStmt:
+			for _, l := range v.Lhs {
+				if ix, ok := l.(*ast.IndexExpr); ok && strings.HasSuffix(c06Expr(ix.X), ".nodeAllocations") {
+					return true
+				}
+			}
+		case *ast.CallExpr:
+			if id, ok := v.Fun.(*ast.Ident); ok && id.Name == "delete" && len(v.Args) > 0 && strings.HasSuffix(c06Expr(v.Args[0]), ".nodeAllocations") {
+				return true
+			}
+		}
+		return false
+	})
+	fmt.Fprintf(&e.out, "/-- functions of the package that store into / delete from <manager>.nodeAllocations -/\ndef nodeAllocationsWriters : List String := %s\n", c06Strs(writers))
+}
+
+// ---- informer glue (round 3): statement / guard order of the pod event handler, as the event model decodes it.
+// Codes, top-level statements in source order:
+//
+//	OnAdd / OnUpdate:  0 `x, ok := obj.(*T)`   1 `if !ok { return }`   2 call <recv>.updatePod(...)   9 anything else
+//	updatePod:         1 `if pod.Spec.NodeName == "" { [Release of the old pod] return }`   2 `if IsPodTerminated(pod) { deletePod; return }`
+//	                   3 `if err != nil { return }`   4 `if len(..NUMANodeResources) == 0 && cpus.IsEmpty() { return }`
+//	                   5 call <..>.resourceManager.Update(...)   8 a guard of a known kind with an unexpected body
+//	                   9 any other statement that can return;  statements that cannot return are not listed
+//	deletePod:         1 as above (body: return only)   6 call <..>.resourceManager.Release(...)
+//	resourceManager.Update: 7 `if !<..>.IsValid() { return }`   10 call getOrCreateNodeAllocation   11 call <..>.update(...)
+func c06Src(fset *token.FileSet, n ast.Node) string {
+	var sb strings.Builder
+	_ = printer.Fprint(&sb, fset, n)
+	return strings.Join(strings.Fields(sb.String()), " ")
+}
+
+func c06HasReturn(n ast.Node) bool {
+	found := false
+	ast.Inspect(n, func(m ast.Node) bool {
+		if _, isLit := m.(*ast.FuncLit); isLit {
+			return false
+		}
+		if _, ok := m.(*ast.ReturnStmt); ok {
+			found = true
+		}
+		return true
+	})
+	return found
+}
+
+func c06HasCall(n ast.Node, suffix string) bool {
+	found := false
+	ast.Inspect(n, func(m ast.Node) bool {
+		if c, ok := m.(*ast.CallExpr); ok {
+			if strings.HasSuffix(c06Expr(c.Fun), suffix) {
+				found = true
+			}
+		}
+		return true
+	})
+	return found
+}
+
+func (e *ext) c06StmtCodes(dir, recv, fn string) []int {
+	fd := e.funcDecl(dir, recv, fn)
+	if fd == nil || fd.Body == nil {
+		e.fail("%s: func (%s) %s not found", dir, recv, fn)
+		return nil
+	}
+	var codes []int
+	for _, st := range fd.Body.List {
+		switch v := st.(type) {
+		case *ast.IfStmt:
+			cond := c06Src(e.fset, v.Cond)
+			body := v.Body
+			onlyReturn := len(body.List) == 1 && c06HasReturn(body.List[0]) && v.Else == nil && v.Init == nil
+			switch {
+			case cond == "!ok" && onlyReturn:
+				codes = append(codes, 1)
+			case strings.HasSuffix(cond, `Spec.NodeName == ""`) && v.Else == nil && v.Init == nil && c06HasReturn(body):
+				if fn == "deletePod" && !onlyReturn {
+					codes = append(codes, 8)
+				} else if fn == "updatePod" && !(len(body.List) == 2 && c06HasCall(body.List[0], ".Release") && c06HasReturn(body.List[1])) {
+					codes = append(codes, 8)
+				} else {
+					codes = append(codes, 1)
+				}
+			case strings.Contains(cond, "IsPodTerminated(") && !strings.Contains(cond, "&&") && !strings.Contains(cond, "||") && !strings.HasPrefix(cond, "!"):
+				if len(body.List) == 2 && c06HasCall(body.List[0], ".deletePod") && c06HasReturn(body.List[1]) && v.Else == nil {
+					codes = append(codes, 2)
+				} else {
+					codes = append(codes, 8)
+				}
+			case cond == "err != nil" && onlyReturn:
+				codes = append(codes, 3)
+			case strings.Contains(cond, "len(") && strings.Contains(cond, "NUMANodeResources) == 0 &&") && strings.HasSuffix(cond, "IsEmpty()") && onlyReturn:
+				codes = append(codes, 4)
+			case strings.HasPrefix(cond, "!") && strings.HasSuffix(cond, "CPUTopology.IsValid()") && onlyReturn:
+				codes = append(codes, 7)
+			default:
+				if c06HasReturn(v) {
+					codes = append(codes, 9)
+				}
+			}
+		case *ast.AssignStmt:
+			src := c06Src(e.fset, v)
+			switch {
+			case len(v.Lhs) == 2 && strings.Contains(src, ", ok := ") && strings.Contains(src, ".(*"):
+				codes = append(codes, 0)
+			case c06HasCall(v, ".getOrCreateNodeAllocation"):
+				codes = append(codes, 10)
+			}
+		case *ast.ExprStmt:
+			switch {
+			case c06HasCall(v, ".updatePod"):
+				codes = append(codes, 2)
+			case c06HasCall(v, "resourceManager.Update"):
+				codes = append(codes, 5)
+			case c06HasCall(v, "resourceManager.Release"):
+				codes = append(codes, 6)
+			case c06HasCall(v, ".update"):
+				codes = append(codes, 11)
+			}
+		case *ast.DeferStmt, *ast.DeclStmt:
+		default:
+			if c06HasReturn(st) {
+				codes = append(codes, 9)
+			}
+		}
+	}
+	return codes
+}
+
+func (e *ext) c06EventGlue(dir string) {
+	for _, f := range [][3]string{{"podEventHandler", "OnAdd", "podOnAdd"}, {"podEventHandler", "OnUpdate", "podOnUpdate"},
+		{"podEventHandler", "updatePod", "podUpdatePod"}, {"podEventHandler", "deletePod", "podDeletePod"},
+		{"resourceManager", "Update", "rmUpdateStmts"}} {
+		fmt.Fprintf(&e.out, "/-- %s.%s: statement / guard codes in source order (see facts_c06.go) -/\ndef %s : List Nat := %s\n", f[0], f[1], f[2], c06Ints(e.c06StmtCodes(dir, f[0], f[1])))
+	}
+}
+
 func init() {
 	extractors["C06"] = func(e *ext) {
 		d := "pkg/scheduler/plugins/nodenumaresource"
 		e.c06CommitSites()
+		e.c06GetOrCreate(d)
+		e.c06EventGlue(d)
 		e.c06Sections(d, "resourceManager", "Update", "rmUpdate")
 		e.c06Sections(d, "resourceManager", "Release", "rmRelease")
 		e.c06Sections(d, "resourceManager", "GetAvailableCPUs", "rmGetAvailableCPUs")
